@@ -1,4 +1,4 @@
 From Coq Require Import Extraction ExtrOcamlBasic.
-From Shisui Require Import Base.Bytes Model.Framing.
+From Shisui Require Import Base.Bytes Model.Framing Model.Dispatch.
 Extraction Language OCaml.
-Extraction "c15_model.ml" encode_contents decode_contents decode_single encode_utp_content decode_utp_content bytes_eqb.
+Extraction "c15_model.ml" encode_contents decode_contents decode_single encode_utp_content decode_utp_content bytes_eqb handle_offered_contents.
